@@ -39,7 +39,9 @@ class C17(FsProp):
     def mc(self, tier):
         return [{"module": "EditFs.tla", "cfg": "MC_EditFs.cfg", "coverage": True, "workers": 2, "coverage_exempt": ["EditFs!ShortCount", "EditFs!Handle", "EditFs!HandleCrash"],
                  "what": "edit FS program (fixed variant) x Crash/Fail/TornWrite at every point x encodable or not"},
-                {"module": "EditFs.tla", "cfg": "MC_EditFs_bakchecked.cfg", "coverage": True, "workers": 2, "coverage_exempt": ["EditFs!ShortCount"],
+                {"module": "EditFs.tla", "cfg": "MC_EditFs_bakchecked.cfg", "coverage": True, "workers": 2,
+                 # (HandleCrash is taken 67 times; the states it reaches are the ones Crash reaches - no distinct new state)
+                 "coverage_exempt": ["EditFs!ShortCount", "EditFs!HandleCrash"],
                  "what": "a safety copy made first and put back on error only once it is known to be complete: safe as well"},
                 {"module": "EditFs.tla", "cfg": "MC_EditFs_bakrollback.cfg", "expect": "fail", "workers": 2,
                  "what": "seed R26-C17: every error answered by renaming the safety copy over M - also when the copy itself failed part way"},
